@@ -5,6 +5,7 @@
 
 #include <memory>
 #include <cstddef>
+#include <cstdlib>
 #include <cstring>
 #include <cstdint>
 
